@@ -157,6 +157,10 @@ class Obj:
         if getattr(self, 'ntfields', None):
             o_ = other._astuple() if isinstance(other, Obj) and getattr(other, 'ntfields', None) else other
             return self._astuple() == o_ if isinstance(o_, tuple) else NotImplemented
+        if getattr(self, 'dcfields', None) is not None and self.dcopts.get('eq'):
+            if isinstance(other, Obj) and getattr(other, 'clsqual', 1) == getattr(self, 'clsqual', 2):
+                return tuple(self.fields.get(k_) for k_ in self.dcfields) == tuple(other.fields.get(k_) for k_ in other.dcfields)
+            return NotImplemented
         return NotImplemented
 
     def __ne__(self, other):
@@ -174,6 +178,10 @@ class Obj:
             raise TypeError('unhashable type: %r' % (self.clsname or 'record'))
         if getattr(self, 'ntfields', None):
             return hash(self._astuple())
+        if getattr(self, 'dcfields', None) is not None and self.dcopts.get('eq'):
+            if not self.dcopts.get('frozen'):
+                raise TypeError('unhashable type: %r' % (self.clsname or 'record'))
+            return hash(tuple(self.fields.get(k_) for k_ in self.dcfields))
         return id(self) >> 4
 
     def _order(self, name, other):
@@ -183,6 +191,8 @@ class Obj:
             o_ = other._astuple() if isinstance(other, Obj) and getattr(other, 'ntfields', None) else other
             if isinstance(o_, tuple):
                 return getattr(self._astuple(), name)(o_)
+        if getattr(self, 'dcfields', None) is not None and self.dcopts.get('order') and isinstance(other, Obj) and getattr(other, 'clsqual', 1) == getattr(self, 'clsqual', 2):
+            return getattr(tuple(self.fields.get(k_) for k_ in self.dcfields), name)(tuple(other.fields.get(k_) for k_ in other.dcfields))
         return NotImplemented
 
     def __lt__(self, other):
@@ -209,6 +219,8 @@ class Obj:
             return self.call('__repr__')
         if getattr(self, 'ntfields', None):
             return '%s(%s)' % (self.clsname, ', '.join('%s=%r' % (k_, self.fields[k_]) for k_ in self.ntfields))
+        if getattr(self, 'dcfields', None) is not None and self.dcopts.get('repr'):
+            return '%s(%s)' % (self.clsname, ', '.join('%s=%r' % (k_, self.fields.get(k_)) for k_ in self.dcfields))
         return '<%s object>' % (self.clsname or 'record')
 
     def __format__(self, spec):
@@ -242,7 +254,7 @@ class Obj:
             return _decorate(fn, raw, self.funcs)(recv if not isinstance(self, _Bound) else self, *args, **kwargs)
         params = [a.arg for a in fn.args.args]
         static = any(isinstance(d, ast.Name) and d.id == 'staticmethod' for d in fn.decorator_list)
-        env = {}
+        env = _Scope(self.closure) if getattr(self, 'closure', None) is not None else {}
         if not static:
             if not params:
                 raise TypeError('%s() takes no positional argument (self)' % name)
@@ -947,7 +959,49 @@ def _build_pure_modules():
             fn_, maxsize = maxsize, 128
             return deco(fn_)
         return deco
-    _Functools._names.update({'wraps': wraps, 'lru_cache': lru_cache, 'cache': lru_cache(None)})
+    def singledispatch(fn):
+        registry = []
+
+        def class_names(v):
+            if isinstance(v, Obj):
+                return [c_ for c_, _ in (getattr(v, 'mro', None) or [(v.clsname, None)])] + ['object']
+            return [t_.__name__ for t_ in type(v).__mro__]
+
+        def key_name(cls):
+            cls = getattr(cls, '__wrapped_type__', cls)
+            if isinstance(cls, type):
+                return cls.__name__
+            if hasattr(cls, '_qual'):
+                return str(cls._qual).split('.')[-1]
+            raise Unsupported('singledispatch on %r' % (cls,))
+
+        def dispatcher(*a, **k):
+            if not a:
+                raise TypeError('%s requires at least 1 positional argument' % getattr(fn, '__name__', 'function'))
+            if isinstance(a[0], PyStub) and not isinstance(a[0], Obj):
+                raise Unsupported('singledispatch on an abstract object')
+            for nm_ in class_names(a[0]):
+                for key_, impl in reversed(registry):
+                    if key_ == nm_:
+                        return impl(*a, **k)
+            return fn(*a, **k)
+
+        def register(cls, func=None):
+            if func is not None:
+                registry.append((key_name(cls), func))
+                return func
+            if callable(cls) and not isinstance(getattr(cls, '__wrapped_type__', cls), type) and not hasattr(cls, '_qual'):
+                raise Unsupported('singledispatch.register by annotation')
+            nm_ = key_name(cls)
+
+            def deco(f_):
+                registry.append((nm_, f_))
+                return f_
+            return deco
+        dispatcher.register = register
+        dispatcher.__name__ = getattr(fn, '__name__', 'dispatcher')
+        return dispatcher
+    _Functools._names.update({'wraps': wraps, 'lru_cache': lru_cache, 'cache': lru_cache(None), 'singledispatch': singledispatch})
     return {'itertools': _Itertools(), 'functools': _Functools(), 'operator': _Operator(), 'collections': _Collections(), 'heapq': _Heapq(), 'bisect': _Bisect(),
             'contextlib': _Contextlib()}
 
@@ -974,6 +1028,8 @@ def builtin_value(name, funcs=None):
                         keywords=[ast.keyword(arg=k_, value=ast.Name(id='_k_%s' % k_, ctx=ast.Load())) for k_ in kwargs])
         return ev(node, env, funcs)
     call.__name__ = name
+    if name in _MATCH_BUILTINS or name in ('object', 'type'):
+        call.__wrapped_type__ = _MATCH_BUILTINS.get(name, object if name == 'object' else type)
     return call
 
 
@@ -1328,6 +1384,8 @@ def ev(n, env, funcs=None):
                 return _BoundMethod(v, _demangled(v, n.attr))
             if getattr(v, 'ntfields', None) and n.attr == '_fields':
                 return tuple(v.ntfields)
+            if '__getattr__' in v.methods:
+                return v.call('__getattr__', n.attr)          # (called when the normal lookup has failed, as Python does)
             if getattr(v, 'constructed', False) and '__getattr__' not in v.methods and an not in getattr(v, 'classnames', ()) \
                     and n.attr not in getattr(v, 'classnames', ()):
                 raise AttributeError('%r object has no attribute %r' % (v.clsname, n.attr))
@@ -1346,6 +1404,8 @@ def ev(n, env, funcs=None):
         if v is None:
             raise AttributeError("'NoneType' object has no attribute %r (%s)" % (n.attr, txt))
         if isinstance(v, (int, float, complex)) and n.attr in ('real', 'imag'):
+            return getattr(v, n.attr)
+        if isinstance(v, int) and type(v).__name__ == '_IntMember' and n.attr in ('name', 'value'):
             return getattr(v, n.attr)
         if isinstance(v, tuple) and hasattr(type(v), '_fields') and (n.attr in type(v)._fields or n.attr == '_fields'):
             return getattr(v, n.attr)              # a field of a namedtuple
@@ -1437,6 +1497,8 @@ def ev(n, env, funcs=None):
                 except StopIteration:
                     raise Raised('StopIteration', '')
             if isinstance(rv, _types.FunctionType) and not fname.startswith('_') and callable(rv.__dict__.get(fname)):
+                pass
+            if isinstance(rv, _types.FunctionType) and not fname.startswith('_') and callable(rv.__dict__.get(fname)):
                 return rv.__dict__[fname](*_args(n, env, funcs), **_kw(n, env, funcs))      # itertools.chain.from_iterable
             if type(rv).__module__ == 're' and not fname.startswith('_') and hasattr(rv, fname):      # re.Match / re.Pattern objects
                 return getattr(rv, fname)(*_args(n, env, funcs), **_kw(n, env, funcs))
@@ -1511,6 +1573,7 @@ def ev(n, env, funcs=None):
                     except (Unsupported, KeyError, IndexError, AttributeError):
                         cv = None
                     for one in (cv if isinstance(cv, tuple) else (cv,)):
+                        one = getattr(one, '__wrapped_type__', one)
                         if isinstance(one, type):
                             names.add(one.__name__)
                             pytypes.append(one)
@@ -1737,7 +1800,7 @@ def ev(n, env, funcs=None):
             if fname == 'repr' and len(args) == 1:
                 a0 = args[0]
                 if isinstance(a0, Obj):
-                    return repr(a0) if ('__repr__' in a0.methods or getattr(a0, 'ntfields', None)) else '<%s object>' % (sorted(a0.isa)[0] if a0.isa else 'record')
+                    return repr(a0) if ('__repr__' in a0.methods or getattr(a0, 'ntfields', None) or getattr(a0, 'dcfields', None) is not None) else '<%s object>' % (sorted(a0.isa)[0] if a0.isa else 'record')
                 if isinstance(a0, PyStub):
                     return repr(a0) if type(a0).__repr__ is not object.__repr__ else '<%s object>' % type(a0).__name__
                 return repr(a0)
@@ -1777,7 +1840,19 @@ def ev(n, env, funcs=None):
                             if ex_.name == 'AttributeError':
                                 return False
                             raise
-                    return args[1] in o_.fields or args[1] in o_.methods or _demangled(o_, args[1]) is not None or args[1] in (getattr(o_, 'consts', None) or {})
+                    if args[1] in o_.fields or args[1] in o_.methods or _demangled(o_, args[1]) is not None or args[1] in (getattr(o_, 'consts', None) or {}):
+                        return True
+                    if '__getattr__' in o_.methods:
+                        try:
+                            o_.call('__getattr__', args[1])
+                            return True
+                        except AttributeError:
+                            return False
+                        except Raised as ex_:
+                            if ex_.name == 'AttributeError':
+                                return False
+                            raise
+                    return False
                 return hasattr(o_, args[1])
             if fname in ('ord', 'chr', 'bin', 'hex', 'oct', 'pow') and all(isinstance(a_, (int, float, str)) for a_ in args):
                 return {'ord': ord, 'chr': chr, 'bin': bin, 'hex': hex, 'oct': oct, 'pow': pow}[fname](*args)
@@ -1830,7 +1905,7 @@ def ev(n, env, funcs=None):
                     # None == record, 3 == record: Python falls back to the reflected method, then to identity
                     res = r.call('__eq__', l) if '__eq__' in r.methods else (l is r)
                     ok = ok and (bool(res) == (t is ast.Eq))
-                elif isinstance(l, Obj) and t in (ast.Eq, ast.NotEq) and '__eq__' not in l.methods and getattr(l, 'ntfields', None):
+                elif isinstance(l, Obj) and t in (ast.Eq, ast.NotEq) and '__eq__' not in l.methods and (getattr(l, 'ntfields', None) or getattr(l, 'dcfields', None) is not None):
                     ok = ok and (bool(l == r) == (t is ast.Eq))
                 elif isinstance(l, Obj) and getattr(l, 'ntfields', None) and t in (ast.Lt, ast.LtE, ast.Gt, ast.GtE) and \
                         {ast.Lt: '__lt__', ast.LtE: '__le__', ast.Gt: '__gt__', ast.GtE: '__ge__'}[t] not in l.methods:
@@ -2260,6 +2335,8 @@ def run_block(stmts, env, funcs=None, limit=10000):
             for d_ in reversed(_other_decorators(s)):
                 c_ = ev(d_, env, funcs)(c_)
             env[s.name] = c_
+        elif isinstance(s, ast.ClassDef):
+            env[s.name] = _LocalClass(s, env, funcs)
         elif isinstance(s, ast.Match):
             r = _run_match(s, env, funcs, limit)
             if r[0] != 'fall':
@@ -2289,6 +2366,69 @@ def run_block(stmts, env, funcs=None, limit=10000):
         else:
             raise Unsupported('statement %s' % type(s).__name__)
     return ('fall', None)
+
+
+class _LocalClass(PyStub):
+    """a class defined inside a function (no bases, or object): its instances are records whose methods see the enclosing frame"""
+
+    def __init__(self, node, env, funcs):
+        bases = [ast.unparse(b) for b in node.bases]
+        if [b for b in bases if b != 'object'] or node.keywords or _other_decorators(node):
+            raise Unsupported('local class %s with bases / metaclass / decorators' % node.name)
+        object.__setattr__(self, '_node', node)
+        object.__setattr__(self, '_env', env)
+        object.__setattr__(self, '_funcs', funcs)
+        object.__setattr__(self, '_qual', '<locals>.' + node.name)
+        object.__setattr__(self, 'isa', ('type',))
+        methods, consts = {}, {}
+        for st in node.body:
+            if isinstance(st, ast.FunctionDef):
+                methods[st.name] = st
+                if st.name.startswith('__') and not st.name.endswith('__'):
+                    methods['_' + node.name.lstrip('_') + st.name] = st
+            elif isinstance(st, (ast.Assign, ast.AnnAssign)) or (isinstance(st, ast.Expr) and isinstance(st.value, ast.Constant)) or isinstance(st, ast.Pass):
+                if isinstance(st, (ast.Assign, ast.AnnAssign)):
+                    scope = _Scope(env)
+                    dict.update(scope, consts)
+                    run_block([st], scope, funcs)
+                    consts.update({k_: v_ for k_, v_ in dict.items(scope)})
+            else:
+                raise Unsupported('statement %s in the body of local class %s' % (type(st).__name__, node.name))
+        object.__setattr__(self, '_methods', methods)
+        object.__setattr__(self, '_consts', consts)
+
+    def __getattr__(self, k):
+        d = object.__getattribute__(self, '__dict__')
+        if k in d.get('_consts', {}):
+            return d['_consts'][k]
+        m = d.get('_methods', {}).get(k)
+        if m is not None:
+            static = any(isinstance(x, ast.Name) and x.id == 'staticmethod' for x in m.decorator_list)
+            if static:
+                return make_func(m, d['_funcs'])
+            if any(isinstance(x, ast.Name) and x.id == 'classmethod' for x in m.decorator_list):
+                return lambda *a, **kw: make_func(m, d['_funcs'])(self, *a, **kw)
+        raise AttributeError(k)
+
+    def __setattr__(self, k, v):
+        self._consts[k] = v
+
+    def __call__(self, *args, **kwargs):
+        node = self._node
+        obj = Obj({}, dict(self._methods), self._funcs, isa={node.name})
+        obj.clsname = node.name
+        obj.clsqual = self._qual
+        obj.consts = self._consts
+        obj.owners = {k_: node.name for k_ in self._methods}
+        obj.mro = [(node.name, dict(self._methods))]
+        obj.classnames = set(self._consts)
+        obj.closure = self._env
+        if '__init__' in obj.methods:
+            obj.call('__init__', *args, **kwargs)
+        elif args or kwargs:
+            raise TypeError('%s() takes no arguments' % node.name)
+        obj.constructed = True
+        return obj
 
 
 class _Scope(dict):
@@ -2455,6 +2595,8 @@ def _bind(t, v, env, funcs=None):
     elif isinstance(t, ast.Attribute):
         base = ev(t.value, env, funcs)
         if isinstance(base, Obj):
+            if getattr(base, 'frozen', False) or (getattr(base, 'ntfields', None) and t.attr in base.ntfields):
+                raise AttributeError("cannot assign to field %r" % t.attr)
             if t.attr in base.methods and _is_property(base.methods[t.attr]) and t.attr not in base.fields:
                 if t.attr + '.setter' not in base.methods:
                     raise AttributeError("property %r of %r object has no setter" % (t.attr, base.clsname))
